@@ -94,6 +94,7 @@ fixed("C20", "nil *ToItemCollection * top panic@ToItemCollection", "17f659c", "T
 fixed("C20", "nil ToActivity nil top panic@ToActivity", "0dccdd1", "ToActivity(nil) called reflect.TypeOf(nil).ConvertibleTo", "cells: ToActivity nil top")
 
 # ---- C04
+fixed("C20", "nil CollectionPath.IRI/Of/AddTo * list* panic@CollectionPath.ofObject", "ebef377", "CollectionPath.Of on an item list holding a nil pointer (or an empty IRI) dereferenced the nil *Object that OnObject hands to the callback for such a member; found when C12 planted empty IRIs into lists, then shown by C20 after the list positions were added for the CollectionPath helpers", "cells: CollectionPath.IRI/Of/AddTo (*Object)(nil) list1")
 fixed("C04", "total hang * follow-up nesting:lists", "1bf2f5d", "duplicated rows in the gob encoder encoded tag/shares/inbox twice per level: GobEncode cost doubled with each nesting level (10 s for 20 levels)", "nesting layer: lists depth 100")
 fixed("C04", "total panic@(*NaturalLanguageValues).UnmarshalText *", "fdef947", "NaturalLanguageValues.UnmarshalText indexed data[0] on empty input and sliced [1:0] on a lone quote", "tiny layer: (*NaturalLanguageValues).UnmarshalText with empty input")
 fixed("C04", "total hang * follow-up nesting:collection", "3fad8c5", "OrderedCollection.Equals compared the ordered items twice per level: ItemsEqual on nested ordered collections was exponential", "nesting layer: collection depth 100")
